@@ -2,6 +2,7 @@
 # usage: try_patch.sh <property-id> <patch.diff> [tier] — applies the patch to /repo, runs the
 # registered check (evidence/replays redirected to a scratch dir), and undoes the patch.
 id=$1; patch=$2; tier=${3:-quick}
+if [ -n "$(git -C /repo status --short | grep -v '^??')" ]; then echo "refusing: /repo has uncommitted changes (the undo step would wipe them)"; exit 2; fi
 git -C /repo apply "$patch" || { echo "patch does not apply"; exit 2; }
 out=$(mktemp -d /tmp/gocv-seedout-XXXX)
 GOCV_OUT=$out /verif/bin/gocv check $id --tier $tier 2>&1 | grep -v '^ *assume' | grep -E "VIOLATION|failed obl|^property|left the" | cut -c1-280 | head -${TAILN:-6}
